@@ -521,6 +521,13 @@ def check_cutoff(run, pkg, name, typed):
             raise AnalysisError(f"{fq}: row writes in different loops")
         segs += segments(w.data["call"][2][1])
     loc = loc_of(it, rows[0])
+    # every value on the way to the written ids is held in double precision: a cutoff or a distance stored in a narrower float
+    # type is a different number (1.9 -> 1.89999998), so the boundary d = r_c moves
+    narrow = sorted({c for w in rows for c in narrowing_casts(w.data["call"])} | {c for e in it.events if e.kind in ("store", "assign", "aug") for c in narrowing_casts(e.data.get("value", NONE))})
+    run.ob("R-CMP", fq, "precision", not narrow, "distances and cutoffs are compared in double precision (no narrowing cast on the way to the inclusive test d <= r_c)",
+           "; ".join(narrow)[:200] if narrow else "no float32 / float16 construct", witness=None if not narrow else
+           f"{narrow[0]}: a cutoff of 1.9 becomes 1.89999998 - a pair at distance exactly 1.9 is dropped although the boundary is inclusive (and 1.6 becomes 1.60000002: pairs up to 2e-8 beyond it are listed)",
+           loc=loc, sound=True)
     kinds = [s[0] for s in segs]
     ints = [s for s in segs if s[0] == "int"]
     joins = [s for s in segs if s[0] == "join"]
